@@ -137,6 +137,31 @@ def device_frames(ctx: Ctx):
                 if len(raised) > n0:
                     raised[-1] = raised[-1] + (st,)
                 await op("refresh", d.refresh())
+            # several AirConditioner objects of one process working concurrently (each refresh consists of several commands): the ids on the
+            # wire advance by one in EMISSION order, whoever emits; half of the rounds with the library's debug logging switched on
+            import asyncio
+            import logging
+            others = [AC(ip="10.0.0.1", port=6444, device_id=rng.getrandbits(48)) for _ in range(2)]
+            for o in others:
+                if ver == 3:
+                    await op("authenticate", o.authenticate(tok, key))
+                await op("get_capabilities", o.get_capabilities())
+            lg = logging.getLogger("msmart")
+            for rnd in range(ctx.pick(12, 120)):
+                dbg = rnd % 2 == 1
+                if dbg:
+                    logging.disable(logging.NOTSET)
+                    lg.setLevel(logging.DEBUG)
+                    lg.propagate = False
+                    if not lg.handlers:
+                        lg.addHandler(logging.NullHandler())
+                try:
+                    await asyncio.gather(op("refresh", d.refresh()), op("refresh", others[0].refresh()), op("refresh", others[1].refresh()))
+                finally:
+                    if dbg:
+                        lg.setLevel(logging.NOTSET)
+                        lg.propagate = True
+                        logging.disable(logging.CRITICAL)
 
         vloop.run(loop, go())
         prev = -1
